@@ -188,7 +188,11 @@ impl PrometheusBuilder {
     {
         use std::str::FromStr;
 
-        let address = IpNet::from_str(address.as_ref())
+        // Accept both documented forms: a subnet in CIDR notation, or a plain IP address, which denotes the network
+        // containing only that address (`/32` for IPv4, `/128` for IPv6).
+        let address = address.as_ref();
+        let address = IpNet::from_str(address)
+            .or_else(|e| IpAddr::from_str(address).map(IpNet::from).map_err(|_| e))
             .map_err(|e| BuildError::InvalidAllowlistAddress(e.to_string()))?;
         self.allowed_addresses.get_or_insert(vec![]).push(address);
 
